@@ -20,6 +20,7 @@ mod c16;
 mod c13;
 mod c10;
 mod c09;
+mod c14;
 
 pub use util::*;
 
@@ -48,6 +49,7 @@ fn props() -> Vec<Prop> {
         Prop { id: "C13", run: c13::run, gen: c13::gen },
         Prop { id: "C10", run: c10::run, gen: c10::gen },
         Prop { id: "C09", run: c09::run, gen: c09::gen },
+        Prop { id: "C14", run: c14::run, gen: c14::gen },
     ]
 }
 
